@@ -538,9 +538,15 @@ def run_c04(ctx):
     res.distribution["ops"] = summarize_ops(cases)
     res.samples = [cases[0], cases[len(cases) // 2], cases[-1]]
     # scope: structure only -- T lines without value/format/hook/position, S flags
-    def filt(l):
-        return l.startswith("T ")
-    correspond(ctx, res, cases, line_filter=None, drop_prefixes=("E ", "A ", "R ", "L "), oracle=c04_oracle)
+    def structure_only(l):
+        # T <path> <name> <ty> <fmt> <val> ... -> path, name, type and child count
+        if l.startswith("T "):
+            f = l.split(" ")
+            return "T %s %s %s %s" % (f[1], f[2], f[3], f[5] if f[5].startswith("a") else "")
+        if l.startswith("R n") or l.startswith("R crash") or l.startswith("R badhandle"):
+            return l
+        return None
+    correspond(ctx, res, cases, line_filter=structure_only, oracle=c04_oracle)
     return res
 
 
